@@ -513,6 +513,31 @@ func ancestorOfScope(s Site, dir string) bool {
 	return false
 }
 
+// archiveCrossesProtection is the shape of the listed finding: the request may
+// see the directory it asks an archive of (as far as basicauth is concerned),
+// but some file below it is protected by a basicauth rule the request does not
+// satisfy (a scope below the directory, or an exclude that hands a sub-tree to
+// another rule). The archive walker does not consult basicauth per file.
+func archiveCrossesProtection(s Site, r Req, dir string) bool {
+	if ancestorOfScope(s, dir) {
+		return true
+	}
+	noInternal := Site{Auth: s.Auth}
+	if forb, _ := disclosureForbidden(noInternal, r, strings.TrimSuffix(dir, "/")+"/"); forb {
+		return false
+	}
+	prefix := strings.ToLower(strings.TrimSuffix(dir, "/")) + "/"
+	for rel, f := range setupOnce().Files {
+		if f.Outside || !strings.HasPrefix(strings.ToLower("/"+rel), prefix) {
+			continue
+		}
+		if forb, _ := disclosureForbidden(noInternal, r, "/"+rel); forb {
+			return true
+		}
+	}
+	return false
+}
+
 func hasOther(s Site, name string) bool {
 	for _, o := range s.Others {
 		if o == name {
@@ -551,7 +576,7 @@ func TestProtected(t *testing.T) {
 			if vt.Open("archive-bypasses-protection") && hasOther(c.Site, "browse-arch") && strings.Contains(r.Target, "archive=") {
 				// exclude by construction exactly the listed finding: an archive of a
 				// directory that is a strict ancestor of a protected scope
-				if u, err := url.ParseRequestURI(r.Target); err == nil && ancestorOfScope(c.Site, path.Clean("/"+u.Path)) {
+				if u, err := url.ParseRequestURI(r.Target); err == nil && archiveCrossesProtection(c.Site, r, path.Clean("/"+u.Path)) {
 					vt.Excluded("protected", "archive-bypasses-protection")
 					r.Target = "/noindex/inner/?archive=zip"
 				}
